@@ -16,7 +16,7 @@
      SameAggregator   a series is always reported by the same reporter (C06)
      OncePerFlush     every reporter (aggregator shard) reports once per flush: none reports a second time while another has not yet
                       reported for the flush before (active when the number of reporters is known, nrep > 0) *)
-EXTENDS Naturals, FiniteSets, Sequences
+EXTENDS Integers, FiniteSets, Sequences
 
 VARIABLES inflight, done, known, seen, owner, bad, cnt, nrep
 pvars == <<inflight, done, known, seen, owner, bad, cnt, nrep>>
@@ -37,15 +37,17 @@ PReport(flush, who, series, news) ==
                  ELSE IF series \cap already # {} THEN "NoDupInFlush"
                  ELSE IF news \cap done # {} THEN "ExactlyOneFlush(reported twice)"
                  ELSE IF ~(news \subseteq inflight) THEN "ExactlyOneFlush(never offered)"
-                 ELSE IF \E k \in series : k \in DOMAIN owner /\ owner[k] # who THEN "SameAggregator"
-                 ELSE IF nrep > 0 /\ \E w \in 0..(nrep - 1) : w # who /\ Cnt(w) + 1 < Cnt(who) + 1 THEN "OncePerFlush(a shard reported twice within one flush)"
+                 \* the two reporter clauses speak of aggregator shards: a map the driver cannot attribute to one (who = -1: the server
+                 \* handed the backend a map that is none of the aggregators' own, e.g. a consolidated copy) is judged by the clauses above only
+                 ELSE IF who >= 0 /\ \E k \in series : k \in DOMAIN owner /\ owner[k] # who THEN "SameAggregator"
+                 ELSE IF who >= 0 /\ nrep > 0 /\ \E w \in 0..(nrep - 1) : w # who /\ Cnt(w) + 1 < Cnt(who) + 1 THEN "OncePerFlush(a shard reported twice within one flush)"
                  ELSE ""
   IN /\ Latch(verdict)
      /\ inflight' = inflight \ news
      /\ done' = done \cup news
      /\ seen' = [f \in DOMAIN seen \cup {flush} |-> IF f = flush THEN already \cup series ELSE seen[f]]
-     /\ owner' = [k \in DOMAIN owner \cup series |-> IF k \in DOMAIN owner THEN owner[k] ELSE who]
-     /\ cnt' = [w \in DOMAIN cnt \cup {who} |-> IF w = who THEN Cnt(who) + 1 ELSE cnt[w]]
+     /\ owner' = IF who < 0 THEN owner ELSE [k \in DOMAIN owner \cup series |-> IF k \in DOMAIN owner THEN owner[k] ELSE who]
+     /\ cnt' = IF who < 0 THEN cnt ELSE [w \in DOMAIN cnt \cup {who} |-> IF w = who THEN Cnt(who) + 1 ELSE cnt[w]]
      /\ UNCHANGED <<known, nrep>>
 
 PQuiesce == /\ Latch(IF inflight # {} THEN "ExactlyOneFlush(lost)" ELSE "")
